@@ -1,4 +1,75 @@
-(* C03 placeholder: statements follow *)
-From Gws Require Import Lib.Base.
-Theorem C03_placeholder : True. Proof. exact I. Qed.
-Print Assumptions C03_placeholder.
+(* C03 - Inbound frames: accept exactly what RFC 6455/7692 allows, else fail 1002.
+   The reader model (Model/Reader.v: readMessage, readControl, emitMessage, reassembly state) REFINES the receive
+   automaton of Spec/Rfc6455Recv.v, which is written from the RFCs: for every frame a peer can encode - every
+   FIN/RSV/opcode/mask combination, every length form, every payload - in every reassembly state, both roles,
+   compression negotiated or not.  The UTF-8 validator, the inflater and the LZ77 window are parameters. *)
+From Gws Require Import Lib.Base Spec.MaskSpec Spec.Rfc6455 Spec.Rfc6455Recv Model.Header Model.CloseCode Model.Reader
+  Proofs.FrameProofs Proofs.ReaderProofs Proofs.ReaderRefine.
+Local Open Scope N_scope.
+
+Section C03.
+Variable utf8_valid : list N -> bool.
+Variable inflate : list N -> list N -> Z -> option (list N).
+Variable W : Type.
+Variable wdict : W -> list N.
+Variable wwrite : W -> list N -> W.
+
+(* One frame.  If the frame violates the protocol in the current state (violations <> []), the model delivers nothing
+   and fails the connection with a status that belongs to one of the violations present in THAT frame; otherwise it
+   does exactly what the specification says: ping/pong delivered and the reassembly state untouched, Close handed to the
+   close handshake, data appended / completed (inflated, validated, delivered). *)
+Theorem C03_frame_refines : forall c st lf f rest,
+  frame_wf f -> lenform_ok lf (N.of_nat (length (f_payload f))) -> N.of_nat (length (f_payload f)) < 2 ^ 63 ->
+  limit_ok c -> st_ok W st ->
+  refines_step utf8_valid W c rest
+    (recv_frame utf8_valid inflate W wdict wwrite (scfg_of c) (abs W st) f (minimal_of lf (N.of_nat (length (f_payload f)))))
+    (read_message utf8_valid inflate W wdict wwrite c st (encode_frame lf f ++ rest)).
+Proof. exact (read_message_refines utf8_valid inflate W wdict wwrite). Qed.
+
+(* Every frame sequence.  The callbacks of the read loop are exactly those of the longest protocol-valid prefix, in
+   order; at the first violating frame nothing later is delivered and the close status is one the violations of that
+   frame allow; a Close frame ends the run in the close handshake; if all frames are valid the loop waits for more. *)
+Theorem C03_stream_refines : forall c, limit_ok c -> forall fs fuel st,
+  Forall sendable fs -> st_ok W st -> (length (enc_stream fs) < fuel)%nat ->
+  refines_run utf8_valid W c
+    (recv_frames utf8_valid inflate W wdict wwrite (scfg_of c) (abs W st) (spec_frames fs))
+    (read_stream utf8_valid inflate W wdict wwrite fuel c st (enc_stream fs)).
+Proof. exact (read_stream_refines utf8_valid inflate W wdict wwrite). Qed.
+
+(* control frames interleaved inside a fragmented message do not disturb its reassembly: an acceptable ping leaves
+   the (abstract) reassembly state exactly as it was *)
+Theorem C03_control_inside_fragments : forall c (sst : sstate W) f m,
+  violations W c sst f m = [] -> (f_op f = 9 \/ f_op f = 10) ->
+  exists ev, recv_frame utf8_valid inflate W wdict wwrite c sst f m = RNext W [ev] sst.
+Proof.
+  intros c sst f m Hv Hop. unfold Rfc6455Recv.recv_frame. rewrite Hv.
+  destruct Hop as [-> | ->]; cbn; eexists; reflexivity.
+Qed.
+End C03.
+
+(* the reader is a function of the byte string alone: how the bytes are cut into network reads cannot matter in the
+   model; the harness varies the chunking (whole, byte by byte, random) against the real code *)
+
+(* non-vacuity: server role, a text message in two fragments (the second with a non-minimal 16-bit length) with a
+   ping in between, then a frame with RSV2 set, then a frame that is never looked at *)
+Definition ex_frame (fin : bool) (op : N) (r2 : bool) (p : list N) : frame :=
+  {| f_fin := fin; f_rsv1 := false; f_rsv2 := r2; f_rsv3 := false; f_op := op; f_masked := true; f_key := [1; 2; 3; 4]; f_payload := p |}.
+Definition ex_frames : list (lenform * frame) :=
+  [(LShortest, ex_frame false 1 false [104; 101]); (LShortest, ex_frame true 9 false [7]); (L16, ex_frame true 0 false [108]);
+   (LShortest, ex_frame true 2 true [9]); (LShortest, ex_frame true 2 false [10])].
+
+Example C03_nonvacuous :
+  read_stream (fun _ => true) (fun _ _ _ => None) unit (fun _ => []) (fun w _ => w) 100
+    {| r_server := true; r_pmd := false; r_limit := 100; r_utf8 := false |} (r_init unit tt) (enc_stream ex_frames)
+  = ([EvPing [7]; EvMsg 1 [104; 101; 108]], OFail unit 1002).
+Proof. vm_compute. reflexivity. Qed.
+
+Example C03_nonvacuous_hyp : Forall sendable ex_frames.
+Proof.
+  unfold ex_frames, sendable, frame_wf, ex_frame, wf_bytes, byte_ok. cbn [fst snd f_op f_payload f_masked f_key length lenform_ok].
+  repeat (apply Forall_cons || apply Forall_nil); repeat split; try reflexivity; try (cbn; lia); repeat (apply Forall_cons || apply Forall_nil); cbn; lia.
+Qed.
+
+Print Assumptions C03_frame_refines.
+Print Assumptions C03_stream_refines.
+Print Assumptions C03_control_inside_fragments.
